@@ -19,7 +19,7 @@ ENGINES += [
 check("C02", "bfs",
       "explicit-state BFS over all delivery / header / invalidate / reconsider histories on every small block tree, oracle = naive most-work-valid-chain reference + agreement of all views",
       "For every unordered rooted tree up to N blocks and every labelling with invalid blocks (sanity / acceptance / connect time), every history of block deliveries in any order (orphans, one re-delivery), header deliveries and InvalidateBlock/ReconsiderBlock calls is executed on the real BlockChain; after each transition the tip must be a most-work fully-valid delivered chain (first-active wins ties), and BestSnapshot, height<->hash lookups, MainChainHasBlock, BlockByHeight, ChainTips and the connect/disconnect notification stream must agree.",
-      "Bounds: N<=4 quick / <=5 thorough, <=1-2 invalid blocks, <=2 invalidate/reconsider events; equal work per block; orphan expiry and the 100-orphan cap outside the horizon. Known findings (InvalidateBlock/ReconsiderBlock tip choice) are listed in known_findings.json.",
+      "Bounds: N<=4 quick / <=5 thorough, <=1-2 invalid blocks, <=2 invalidate/reconsider events; equal work per block, blocks below depth 1 carry 1..3 transactions (BestSnapshot TotalTxns/NumTxns/Bits/BlockSize/MedianTime are compared with the active chain's blocks); orphan expiry and the 100-orphan cap outside the horizon. The InvalidateBlock/ReconsiderBlock defects it found are repaired (known_findings.json, fixed).",
       "DESIGN.md §4 C02")
 check("C11", "enum",
       "exhaustive enumeration of boundary grids (messages x keys x (r,s) x pubkey byte shapes, all DER strings with <=2 grammar deviations, all MuSig2 signer lists/orders/tweak chains) against an independent math/big reference",
@@ -29,7 +29,7 @@ check("C11", "enum",
 check("C13", "enum",
       "exhaustive small-scope enumeration (tx lists 0..33, all coinbase layouts, all scripts <=3 tokens, all coinbase-height prefixes, lock-time/sequence-lock boundary products on real chains) against a naive reference",
       "Merkle roots through every construction path, witness commitment extraction/validation, weight, sigop cost, coinbase height extraction, finality and BIP68 sequence locks are compared with refmerkle (no btcd imports), bound first to 264 shipped blocks and tx_valid.json.",
-      "Trusted: sha256; CalcSequenceLock driven on main-chain tips of lab chains only.",
+      "Trusted: sha256. Sequence locks: exported CalcSequenceLock on every best-chain tip of 10 lab chains, and (hook VerifCalcSequenceLockAt) calcSequenceLock from every block of an inactive side branch in 60 two-branch worlds.",
       "DESIGN.md §4 C13")
 check("C15", "enum",
       "exhaustive enumeration of values (all VLQ < 2^21, all amounts < 10^6 + boundaries, script classes x curve points, entry/journal shapes) and of hostile byte strings (all strings <=3 bytes, VLQ-overflow family, every truncation) against an independent codec",
@@ -86,7 +86,7 @@ check("C14", "enum",
 check("C17", "enum+dfs",
       "exhaustive enumeration of every rooted tree shape (<=8 quick / <=10 thorough nodes) x every tip x all node pairs/heights/locators/stops/maxima against naive parent walks, deep two-branch families for the skip list, and a path-sharing DFS over every interleaving of header and block deliveries on real chains",
       "Ancestor/FindFork/locators/LocateBlocks/LocateHeaders/HeightRange/IntervalBlockHashes/HeightToHashRange and the chain-view API on index-only chains; on real lab chains BestHeader, IsValidHeader, HeaderHashByHeight, BestChainHeaderForkHeight, refusal of headers below an invalid block, and equality of the final chain with a blocks-only delivery. Reference bound to the doc-comment examples and the TestLocateInventory/TestHeightToHashRange vectors.",
-      "Part (b): trees <=4 (quick) / <=5 (thorough) blocks, one kind of invalid block, parents-first block deliveries.",
+      "Part (b): trees <=4 (quick; plus the 5-block configurations where the invalid block has a descendant two levels below it and a competing branch) / <=5 (thorough) blocks, one kind of invalid block, parents-first block deliveries.",
       "DESIGN.md §4 C17")
 
 check("C06", "enum",
